@@ -135,6 +135,8 @@ class Ctx:
         """Validate recorded traces with a trace spec. Returns list of verdict tuples."""
         name = name or module
         path = os.path.join(self.scratch, f"trace_{name}_{len(self.tlc_runs)}.json")
+        if os.environ.get("VERIF_SELFTEST_CORRUPT") == "1":
+            traces = corrupt_one_observation(traces)   # binding self-test: one logged number is altered
         with open(path, "w") as fh:
             json.dump(traces, fh)
         r = _tlc.run(module, cfg, self.scratch, workers=1, env={"TRACE_FILE": path}, timeout=timeout,
@@ -214,6 +216,46 @@ _WORK = None
 def _run_chunk(k):
     fn, chunks = _WORK
     return dict(_safe(fn, chunks[k]))
+
+
+def corrupt_one_observation(traces):
+    """a deep copy of the recorded traces in which ONE logged observation (an integer, else a Boolean, found in a field whose
+    name says it was observed on the library) is altered; used by `./check selftest` to show that every trace specification
+    rejects a trace the library did not produce"""
+    import copy
+    bad = copy.deepcopy(traces)
+    observed = ("r", "res", "ret", "out", "obs", "post", "got", "back", "n", "vals", "valid", "arr", "field", "value", "values",
+                "result", "ok", "cpok", "ipok", "agree", "norm2", "xs", "data")
+
+    def walk(node, under):
+        if isinstance(node, dict):
+            for k in sorted(node):
+                if k in ("id", "tid", "seed"):
+                    continue
+                hit = walk(node[k], under or k in observed)
+                if hit is not None:
+                    node[k] = hit[0]
+                    return (node,)
+        elif isinstance(node, list):
+            for i, v in enumerate(node):
+                hit = walk(v, under)
+                if hit is not None:
+                    node[i] = hit[0]
+                    return (node,)
+        elif under and isinstance(node, bool):
+            return (not node,)
+        elif under and isinstance(node, int):
+            return (node + 1,)
+        return None
+
+    # alter an observation in the middle of the batch, inside the events (not the initial description)
+    seq = bad if isinstance(bad, list) else [bad]
+    for t in seq[len(seq) // 2:] + seq[:len(seq) // 2]:
+        evs = t.get("ev", t.get("events")) if isinstance(t, dict) else None
+        target = evs if evs else t
+        if walk(target, not evs and isinstance(t, dict) and "ev" not in t) is not None:
+            return bad
+    return bad
 
 
 def library_exception(ex):
@@ -371,7 +413,7 @@ def finish(ctx, level="model_checking", rule="", extra=None):
         "violations": len(new),
     }
     evdir = os.path.join(ROOT, "evidence")
-    if os.path.realpath(REPO) != "/repo":
+    if os.path.realpath(REPO) != "/repo" or os.environ.get("VERIF_SELFTEST_CORRUPT") == "1":
         # a run against another tree (mutation testing) must not overwrite the evidence of /repo
         evdir = os.path.join(tempfile.gettempdir(), "verif-evidence-other-tree")
     os.makedirs(evdir, exist_ok=True)
